@@ -1,0 +1,43 @@
+//go:build linux
+
+package signal
+
+import (
+	"unsafe"
+
+	c "github.com/goplus/llgo/runtime/internal/clite"
+)
+
+const (
+	LLGoPackage = "link"
+)
+
+//llgo:type C
+type SignalHandler func(c.Int)
+
+// sigactiont is struct sigaction as glibc and musl define it on Linux:
+// handler, a 1024-bit signal mask, flags and the restorer.
+//
+//llgo:type C
+type sigactiont struct {
+	handler  SignalHandler
+	mask     [16]uint64
+	flags    c.Int
+	restorer unsafe.Pointer
+}
+
+// saNodefer (SA_NODEFER): do not block the signal while its handler runs.
+// Handlers installed here may leave through siglongjmp (a Go panic raised
+// from the handler); with the signal left blocked, the next occurrence would
+// terminate the process instead of reaching the handler.
+const saNodefer = 0x40000000
+
+//go:linkname sigaction C.sigaction
+func sigaction(sig c.Int, act, old *sigactiont) c.Int
+
+func Signal(sig c.Int, hanlder SignalHandler) c.Int {
+	var act sigactiont
+	act.handler = hanlder
+	act.flags = saNodefer
+	return sigaction(sig, &act, nil)
+}
